@@ -397,6 +397,12 @@ class BaseDAG(Generic[P, RVDAG]):
         in_uxns = [UsageExecNode(xn_id) for xn_id in new_in_ids]
         # if a single value is returned make the output a single value
         out_uxns = _alias_or_aliases_to_uxns(outputs)
+        # an output that is also an input has been renamed: it yields the value supplied for it
+        renamed = dict(zip(in_ids, new_in_ids))
+        if isinstance(out_uxns, UsageExecNode):
+            out_uxns = UsageExecNode(renamed.get(out_uxns.id, out_uxns.id))
+        else:
+            out_uxns = tuple(UsageExecNode(renamed.get(uxn.id, uxn.id)) for uxn in out_uxns)  # type: ignore[union-attr]
 
         # 6. extract the results of only the remaining ExecNodes
         results = StrictDict(
